@@ -27,6 +27,7 @@ CONSTANTS
   Depth = 0
   AttBound = 2
   ViewKeep = {}
+  RealBackoff = FALSE
   GenBFS = FALSE
   AckAll = TRUE
   Weights <- mcWeights
